@@ -465,6 +465,11 @@ impl Report {
         });
         let stop = AtomicBool::new(false);
         let failure: Mutex<Option<(usize, Value, String)>> = Mutex::new(None);
+        // Development aid only (never set by registered commands): scale case counts.
+        let cases = match std::env::var("JJVERIF_DEV_CASES_PCT").ok().and_then(|v| v.parse::<u64>().ok()) {
+            Some(pct) => ((u64::from(cases) * pct / 100).max(1)) as u32,
+            None => cases,
+        };
         let jobs = self.jobs.max(1).min(cases.max(1) as usize);
         let known_sigs: Vec<String> = self
             .known
